@@ -21,5 +21,12 @@ CHECKS = {
     },
 }
 
+CHECKS["C20"] = {
+    "text": "Static half: kernel-evaluated theorem over the tables regenerated from /repo's source on every run (go/ast scan of every IncrementCounter/SetGauge call site + compiled MetricDefinitions): every emitted name is a literal declared with the right kind, no duplicates. Dynamic half: the counters of the L2 model are compared with the implementation's after every step of generated operation sequences and with independently computed true totals (theorem C20_counters_true over all sequences: see Props/C20.v for its status).",
+    "note": "Trusted: the go/ast translator, Coq kernel (vm_compute on a finite table), harness. segment_rotations has no spec-level total.",
+    "technique": "Rocq proof over a model regenerated from source (translator) + model/implementation correspondence",
+    "ref": "DESIGN.md 5 C20",
+}
+
 _pending = "check not built yet in this round (machinery under construction; see DESIGN.md section 10)"
 NOT_APPLICABLE = {("C%02d" % i): _pending for i in range(1, 21) if ("C%02d" % i) not in CHECKS}
